@@ -280,8 +280,10 @@ impl Sub for TimeCtors {
 
 /// RFC 3339 date-time with upper-case 'T' and 'Z' (or numeric offset), years 0000-9999, 0-30 fraction digits, optional leap second
 fn rfc3339_text() -> BoxedStrategy<String> {
-  (0i64..=9999, 1u32..=12, 1u32..=28, 0u32..24, 0u32..60, prop_oneof![9 => 0u32..60, 1 => Just(60u32)], proptest::collection::vec(0u8..10, 0..=30), prop_oneof![Just(None), (-1439i32..=1439).prop_map(Some)])
+  (0i64..=9999, 1u32..=12, prop_oneof![6 => 1u32..=28, 3 => 29u32..=31], 0u32..24, 0u32..60, prop_oneof![9 => 0u32..60, 1 => Just(60u32)], proptest::collection::vec(0u8..10, 0..=30), prop_oneof![Just(None), (-1439i32..=1439).prop_map(Some)])
     .prop_map(|(y, mo, d, h, mi, se, frac, off)| {
+      // the last days of a month exist or not depending on month and year: clamp to the calendar
+      let d = d.min(days_in_month(y, mo));
       // RFC 3339 allows :60 at any local time (a leap second is 23:59:60Z, i.e. another wall-clock time elsewhere)
       let mut s = format!("{:04}-{:02}-{:02}T{:02}:{:02}:{:02}", y, mo, d, h, mi, se);
       if !frac.is_empty() {
@@ -300,6 +302,36 @@ fn rfc3339_text() -> BoxedStrategy<String> {
       s
     })
     .boxed()
+}
+
+fn is_leap(y: i64) -> bool {
+  (y % 4 == 0 && y % 100 != 0) || y % 400 == 0
+}
+fn days_in_month(y: i64, m: u32) -> u32 {
+  match m {
+    4 | 6 | 9 | 11 => 30,
+    2 => if is_leap(y) { 29 } else { 28 },
+    _ => 31,
+  }
+}
+
+/// every 29 February of the years 0000-9999 (2425 of them, the centuries divisible by 400 included) and the last day of
+/// every month of a leap, a common, a century and a 400-year year - in `Z` and offset spellings
+fn calendar_edge_cases() -> Vec<TimeCtorCase> {
+  let mut v = vec![];
+  for y in 0i64..=9999 {
+    if is_leap(y) {
+      let zone = ["Z", "+00:00", "-03:00", "+14:00"][(y / 4 % 4) as usize];
+      v.push(TimeCtorCase { text: format!("{:04}-02-29T{:02}:15:00{}", y, y % 24, zone), valid: true, through_token: y % 400 == 0 });
+    }
+  }
+  for y in [1600i64, 1900, 2000, 2023, 2024, 2100, 2400, 9999, 0, 4] {
+    for m in 1..=12u32 {
+      v.push(TimeCtorCase { text: format!("{:04}-{:02}-{:02}T23:59:59Z", y, m, days_in_month(y, m)), valid: true, through_token: false });
+      v.push(TimeCtorCase { text: format!("{:04}-{:02}-01T00:00:00.000+01:00", y, m), valid: true, through_token: false });
+    }
+  }
+  v
 }
 
 /// strings whose first four characters are not all ASCII digits and which do not begin with a sign
@@ -322,6 +354,33 @@ fn not_a_date() -> BoxedStrategy<String> {
   .boxed()
 }
 
+/// keys that become a reserved key when every character is cut down to its low byte (or low 16 bits): one character of a
+/// reserved key replaced by each code point congruent to it modulo 256, and all three replaced at once
+fn byte_truncation_confusables() -> Vec<KeyCase> {
+  let mut v = vec![];
+  for r in ["iss", "sub", "aud", "exp", "nbf", "iat", "jti"] {
+    let chars: Vec<char> = r.chars().collect();
+    for pos in 0..3 {
+      let mut cp = chars[pos] as u32 + 0x100;
+      while cp <= 0x10ffff {
+        if let Some(ch) = char::from_u32(cp) {
+          let mut k = chars.clone();
+          k[pos] = ch;
+          v.push(KeyCase { key: k.into_iter().collect(), through_token: cp % 0x40000 == chars[pos] as u32 + 0x100 });
+        }
+        cp += 0x100;
+      }
+    }
+    for hi in [0x100u32, 0x7300, 0x10000, 0xff00, 0x20000] {
+      let k: String = chars.iter().filter_map(|c| char::from_u32(*c as u32 + hi)).collect();
+      if k.chars().count() == 3 {
+        v.push(KeyCase { key: k, through_token: false });
+      }
+    }
+  }
+  v
+}
+
 pub fn subs() -> Vec<Box<dyn DynSub>> {
   vec![Box::new(ReservedKeys { kind: "alphabet-sweep" }), Box::new(ReservedKeys { kind: "short-lowercase-sweep" }), Box::new(ReservedKeys { kind: "decorated" }), Box::new(TimeCtors)]
 }
@@ -336,6 +395,8 @@ pub fn run(ctx: &Ctx) -> EvidenceMeta {
     Box::new(|| ctx.enumerate(&short, short_key_sweep().into_iter(), true)),
     Box::new(|| ctx.prop(&decorated, decorated_key(), ctx.n(30_000, 300_000))),
     Box::new(|| ctx.prop(&tc, (rfc3339_text(), any::<u8>()).prop_map(|(text, b)| TimeCtorCase { text, valid: true, through_token: b % 8 == 0 }), ctx.n(30_000, 300_000))),
+    Box::new(|| ctx.enumerate(&tc, calendar_edge_cases().into_iter(), false)),
+    Box::new(|| ctx.enumerate(&sweep, byte_truncation_confusables().into_iter(), false)),
     Box::new(|| ctx.prop(&tc, not_a_date().prop_map(|text| TimeCtorCase { text, valid: false, through_token: false }), ctx.n(20_000, 200_000))),
     Box::new(|| {
       // the C11 rendering space, strict renderings only
@@ -351,9 +412,9 @@ pub fn run(ctx: &Ctx) -> EvidenceMeta {
   ];
   run_jobs(jobs);
   EvidenceMeta {
-    rule: "custom-claim keys: every string of length <= 4 over the 16-symbol alphabet {letters of iss/sub/aud/exp/nbf/iat/jti, 'E', space, NUL} (69,905 keys, exhaustive), every lower-case key of 1-3 letters (18,278, exhaustive), 40 claim names in common use elsewhere, and generated case/whitespace/NUL/combining-mark/BOM decorations of the reserved keys and random Unicode keys, \
+    rule: "custom-claim keys: every string of length <= 4 over the 16-symbol alphabet {letters of iss/sub/aud/exp/nbf/iat/jti, 'E', space, NUL} (69,905 keys, exhaustive), every lower-case key of 1-3 letters (18,278, exhaustive), 40 claim names in common use elsewhere, every key obtained from a reserved key by replacing one character with a code point congruent to it modulo 256 (about 91 000), and generated case/whitespace/NUL/combining-mark/BOM decorations of the reserved keys and random Unicode keys, \
            each through the three constructor forms (&str; (&str, T); (String, T)) with T in {&str, i64, bool, Vec, struct, serde_json::Value, Option}; oracle: Err(Reserved(k)) iff the key is exactly one of the seven, otherwise Ok with get_key() unchanged, and (sampled) the value arrives under that key through a built token. \
-           time claims: generated RFC 3339 date-times (upper-case T/Z or numeric offset, years 0000-9999, 0-30 fraction digits, leap seconds) into the &str and String forms of ExpirationClaim/NotBeforeClaim/IssuedAtClaim: Ok, stored verbatim, verbatim in the token payload; \
+           time claims: generated RFC 3339 date-times (upper-case T/Z or numeric offset, years 0000-9999, every day of the calendar, 0-30 fraction digits, leap seconds; every 29 February of the years 0000-9999 and every month end of ten chosen years) into the &str and String forms of ExpirationClaim/NotBeforeClaim/IssuedAtClaim: Ok, stored verbatim, verbatim in the token payload; \
            strings whose first four characters are not all ASCII digits and that do not begin with a sign: Err(RFC3339Date). Non-trivial = key within edit distance 1 of a reserved key, or a time string with an offset/fraction or from the must-reject domain; distinct by input."
       .into(),
     assumptions: vec!["strings between the accepted and the must-reject domain (e.g. ISO 8601 forms that are not RFC 3339) are not judged".into()],
